@@ -212,6 +212,15 @@ def rule_process(ctx):
             ctx.check(okk, "R5", "TcpFlow::init", "client = (src), server = (dst), flags clear", "TcpFlow::init assigns roles %s" % {k: T.pp(v) for k, v in m.items()}, ctx.loc(ib))
 
 
+def rule_flow_keys(ctx):
+    """a finished connection is removed under the key it is stored with, so a new connection on the same 4-tuple starts a new flow
+    (shared with C07.R2/R3)"""
+    from ..engine import report as R
+    from . import C07
+    C07.rule_R2_R3(R.Retag(ctx, "C07."))
+
+
 def run(ctx):
+    rule_flow_keys(ctx)
     rule_full_data(ctx)
     rule_process(ctx)
